@@ -117,6 +117,13 @@ theorem inv_add (cs cs' : CS) (name : Bytes) (va : VA) (hinv : Inv cs) (h : csAd
     simp only [nameEq_symm p.1, nameEq_cstr]
     rw [nameEq_symm]; exact this p hpm
 
+/-- a table slice lists exactly the column slices added to it, in order -/
+theorem ts_lists_added (css : List CS) : (css.foldl tsAdd tsCreate).cols = css.map some := by
+  suffices h : ∀ (t : TS), (css.foldl tsAdd t).cols = t.cols ++ css.map some by simpa [tsCreate] using h tsCreate
+  induction css with
+  | nil => intro t; simp
+  | cons c cs ih => intro t; simp [ih, tsAdd]
+
 /-- every history of additions (accepted or rejected) from a fresh slice keeps the invariant;
     a rejected addition leaves the slice as it was -/
 def addAll (cs : CS) : List (Bytes × VA) → CS
